@@ -89,7 +89,9 @@ AppendTo(bk, k, e) == LET b == BucketOf(k) IN
                       IF b \in DOMAIN bk THEN Upd(bk, b, Append(bk[b], RecLine(e)))
                       ELSE Upd(bk, b, <<EmptyLine, RecLine(e)>>)
 
-Tombstone(k, t) == [key |-> k, sri |-> <<>>, time |-> t, size |-> 0,
+\* (the size of an index entry is carried as its decimal text: any 64-bit value, while TLC's
+\* integers are 32-bit; sizes that are computed with - byte counts - are integers)
+Tombstone(k, t) == [key |-> k, sri |-> <<>>, time |-> t, size |-> "0",
                     meta |-> "null", raw |-> "none"]
 
 (* ---- content ------------------------------------------------------------- *)
@@ -239,7 +241,7 @@ CommitEffect(op, keyopt, algo, d, n, o, pubStore) ==
        ELSE LET e == [key  |-> keyopt[1],
                       sri  |-> IF o.sri # <<>> THEN o.sri ELSE sriC,
                       time |-> TimeOf(o, op),
-                      size |-> IF o.size # <<>> THEN o.size[1] ELSE n,
+                      size |-> ToString(IF o.size # <<>> THEN o.size[1] ELSE n),
                       meta |-> MetaOf(o),
                       raw  |-> RawOf(o)] IN
             /\ NowOk(o, op)
@@ -321,7 +323,7 @@ DropHandle(op) ==
 IndexInsert(op) ==
     LET o == op.opts
         e == [key |-> op.key, sri |-> o.sri, time |-> TimeOf(o, op),
-              size |-> IF o.size # <<>> THEN o.size[1] ELSE 0,
+              size |-> IF o.sizes # "DEFAULT" THEN o.sizes ELSE "0",   \* raw insert: verbatim
               meta |-> MetaOf(o), raw |-> RawOf(o)] IN
     /\ NowOk(o, op)
     /\ buckets' = AppendTo(buckets, op.key, e)
